@@ -838,20 +838,6 @@ func (g *Gen) genFamily(fam string) (Op, bool) {
 		// (pb and fb write string elements as raw string headers - addresses; a decoded string tensor dangles
 		// as soon as the source's strings are collected, and reading it crashes: not for string tensors)
 		isStr := t.Dtype() == tensor.String
-		if t.IsView() {
-			// gob, pb and fb of a sliced view produce tensors whose shape does not fit their storage (open
-			// C14 findings): such tensors are not allowed into the population
-			name := []string{"Npy", "CSV", "Format", "Format"}[r.Intn(4)]
-			op := Op{Name: name, In: []int{a}, Out: g.newSlot()}
-			if name == "Format" {
-				op.Out = -1
-				op.S = "%v"
-			}
-			if name == "CSV" && t.Dims() > 2 {
-				return Op{}, false
-			}
-			return op, true
-		}
 		if r.Intn(5) == 0 {
 			if d := g.pickWritable(nil); d >= 0 && w.get(d) != t {
 				f := []string{"gob", "pb", "fb", "npy"}[r.Intn(4)]
